@@ -265,7 +265,11 @@ def run(tier: str) -> int:
         raise MachineryFailure('no vectors dumped')
     res.add_mc(d, f'Dump_Levelized_{tier}.cfg (M2 vector generation)')
     replay_vectors(res, vectors)
-    out = sim.run_many(build_jobs(tier), 'harness.c01:project')
+    jobs_ = build_jobs(tier)
+    # each of a seeded choice of the jobs once more, followed in the same process by neighbours that restate ONE of its figures: a value
+    # kept from one run for the next (a memo keyed by too few arguments, a mutated default) shows in the neighbour's own trace
+    chains = sim.neighbour_chains(jobs_, 10 if tier == 'quick' else 60, 3, seed() * 101 + 1, prefer=('Inflation Rate', 'Discount Rate', 'Plant Lifetime', 'Fixed Charge Rate', 'Inflated Bond Interest Rate', 'Inflated Equity Interest Rate', 'Combined Income Tax Rate', 'Utilization Factor'))
+    out = sim.run_many(jobs_, 'harness.c01:project') + sim.run_chains(chains, 'harness.c01:project')
     counts = validate(res, out)
     need = [f'{m}/{b}' for m in ('FCR', 'STD', 'BICYCLE') for b in ('elec', 'heat', 'cogen', 'chiller', 'heatpump', 'dh')]
     missing = [k for k in need if not counts.get(k)]
